@@ -1,6 +1,7 @@
 """C18 Collapsed forwarding: initiator/join gates (one fetch is shared) and the outcome table of a collapsed reader's synchronisation (synced, aborted or still waiting for a live writer)."""
 from .. import expr as E
 from ..flow import ev_call, ev_return, ev_assign, ev_any, ev_exit
+from .C21 import bool_locals, funnel
 
 CRC = "clientReplyContext::"
 CTL = "Store::Controller::"
@@ -23,6 +24,34 @@ def need_locals(ck, fn, *names):
     ck.need(set(names) <= have, "C18: %s no longer has local(s) %s (renamed? re-confirm the rule instance)" % (fn.name, sorted(set(names) - have)))
 
 
+def unit_propagation(atoms, defs):
+    """local helper (Flow on_edge hook, after props/C21): clang gives the last operand of `A && B && C` the whole condition as terminator, so its
+    false edge implies nothing; with the earlier operands known, 3-valued evaluation of the condition (looking through single-definition bool locals)
+    establishes the remaining atom and prunes infeasible edges"""
+    def on_edge(b, lab, imp, env, facts):
+        cond, val = b["term"]["c"], lab == "T"
+
+        def leaf(force=None):
+            def ev(t):
+                for n, m in atoms.items():
+                    if m(t):
+                        return force[1] if force and force[0] == n else env.get("@" + n)
+                st = E.strip(t)
+                if isinstance(st, dict) and st.get("k") == "ref" and st.get("dk") == "local" and len(defs.get(st["d"], [])) == 1:
+                    return E.eval3(defs[st["d"]][0], ev)
+                return None
+            return ev
+        r = E.eval3(cond, leaf())
+        if r is not None and r != val:
+            return False
+        for n in atoms:
+            for guess in (True, False):
+                if E.eval3(cond, leaf((n, guess))) == (not val):
+                    env["@" + n] = not guess
+        return True
+    return on_edge
+
+
 def run(ck):
     facts = ck.facts(["src/client_side_reply.cc", "src/store_client.cc", "src/store/Controller.cc", "src/Transients.cc", "src/CollapsedForwarding.cc"], whole=False)
     need_on = ev_call(REQ, arg={0: E.m_const(1)})
@@ -33,10 +62,18 @@ def run(ck):
             "a method other than GET/HEAD or mayInitiateCollapsing() F; processMiss creates the entry before FwdState::Start")
     cse = facts.fn(CRC + "createStoreEntry")
     need_locals(ck, cse, "m", "reqFlags")
-    ck.require_any("I1.miss-entry-made-joinable", cse, ev_call("storeClientListAdd"),
-                   [("P", "allowCollapsing()", ev_call(CTL + "allowCollapsing")), (E.m_is_mem("RequestFlags::cachable"), False), (E.m_is_mem("RequestFlags::needValidation"), True),
-                    (m_enum_eq(E.m_is_ref("m"), "Http::METHOD_HEAD"), False), (E.m_calls(SC + "mayInitiateCollapsing"), False)], "storeClientListAdd()",
-                   why="(a cachable GET/HEAD miss would stay private until its headers arrive, so concurrent requests would each go to the origin)")
+    atoms = {"cachable": E.m_is_mem("RequestFlags::cachable"), "reval": E.m_is_mem("RequestFlags::needValidation"), "get": m_enum_eq(E.m_is_ref("m"), "Http::METHOD_GET"),
+             "head": m_enum_eq(E.m_is_ref("m"), "Http::METHOD_HEAD"), "may": E.m_calls(SC + "mayInitiateCollapsing")}
+    leaf_of = lambda env: (lambda t: next((env.get("@" + n) for n, m in atoms.items() if m(t)), None))
+    kw = {"tracked": bool_locals(cse), "classify": funnel(leaf_of)} if bool_locals(cse) else {}     # `const bool ok = A && B; if (ok && C)` is followed through
+    fl = ck.flow(cse, track_atoms=atoms, markers={"offered": ev_call(CTL + "allowCollapsing")}, track_markers=["offered"], on_edge=unit_propagation(atoms, ck.local_defs(cse)), **kw)
+    for s in ck.sites(fl, ev_call("storeClientListAdd"), "storeClientListAdd()", 1):
+        v = {n: s.tracked(n) for n in atoms}
+        if s.env.get("#offered") == 1 or v["cachable"] is False or v["reval"] is True or v["may"] is False or (v["get"] is False and v["head"] is False):
+            ck.ok("I1.miss-entry-made-joinable", s.where(), "the new entry is offered for collapsing unless !cachable, needValidation, not GET/HEAD or !mayInitiateCollapsing()")
+        else:
+            ck.violation("I1.miss-entry-made-joinable", "I1|createStoreEntry|not-offered", s.where(), "createStoreEntry: a cachable GET/HEAD miss that may initiate collapsing is not passed to "
+                         "allowCollapsing() on some path (%s): it stays private until its headers arrive, so concurrent requests each go to the origin" % v, fl.witness(s))
     pm = facts.fn(CRC + "processMiss")
     ck.require_passed("I1.joinable-before-fetch", ck.flow(pm, markers={"created": ev_call(CRC + "createStoreEntry")}), ev_call("FwdState::Start"), "created", "FwdState::Start()")
 
@@ -59,15 +96,16 @@ def run(ck):
         ck.trigger_edges(ifo, E.m_calls(SE + "hittingRequiresCollapsing"), False)
     ck.need(len(joined) == 2, "C18: identifyFoundObject no longer has the one `hittingRequiresCollapsing() && !startCollapsingOn()` test (%d edges)" % len(joined))
     for (bid, lab, to) in joined:
-        jf = ck.flow(ifo, start=to, markers={"forgot": ev_call(CRC + "forgetHit"), "served": ev_call(CRC + "doGetMoreData")})
+        jf = ck.flow(ifo, start=to, markers={"forgot": ev_call(CRC + "forgetHit"), "served": ev_call(CRC + "doGetMoreData")}, track_markers=["forgot"])
         exits = jf.find(ev_exit())
         ck.need(exits, "C18: no exit after the collapsing test of identifyFoundObject")
-        for s in exits:
-            if s.passed("served") and not any(x.passed("forgot") for x in jf.find(ev_call(CRC + "doGetMoreData"))):
-                ck.ok("J1.joiner-keeps-entry", ifo.where(ifo.blocks[bid]["term"].get("l")), "after the collapsing test (B%d-%s) the entry is served as found" % (bid, lab))
-            else:
-                ck.violation("J1.joiner-keeps-entry", "J1|identifyFoundObject|after-collapsing-test|%s" % lab, s.where(),
-                             "identifyFoundObject: a request allowed to collapse does not reach doGetMoreData() with the found entry (it would start its own fetch)", jf.witness(s))
+        bad = [x for x in exits if not x.passed("served")] + [x for x in jf.find(ev_call(CRC + "doGetMoreData")) if x.env.get("#forgot") == 1]
+        where = ifo.where(ifo.blocks[bid]["term"].get("l"))
+        if not bad:
+            ck.ok("J1.joiner-keeps-entry", where, "after the collapsing test (B%d-%s) the entry is served as found" % (bid, lab))
+        for x in bad:
+            ck.violation("J1.joiner-keeps-entry", "J1|identifyFoundObject|after-collapsing-test|%s" % lab, x.where(),
+                         "identifyFoundObject: a request allowed to collapse (test at %s) does not reach doGetMoreData() with the found entry kept (it would start its own fetch)" % where, jf.witness(x))
     sco = facts.fn(SC + "startCollapsingOn")
     ck.require_any("J1.refusal-reasons", sco, ret_false, [(ck.m_result_of(sco, SE + "hittingRequiresCollapsing"), False), (ck.m_result_of(sco, SC + "onCollapsingPath"), False)], "return false",
                    why="(a request would refuse to join an in-progress fetch although collapsed_forwarding allows it)")
@@ -76,13 +114,15 @@ def run(ck):
     ck.require_fact("J1.refusal-reasons", ck.flow(ocp), ret_false, E.m_is_mem("collapsed_forwarding"), False, "return false")
 
     ck.rule("J2 clientReplyContext::processExpired (collapsed revalidation): FwdState::Start() only with collapsedRevalidation == crSlave F; "
-            "RESPONSE(startCollapsingOn(*e, true) T -> collapsedRevalidation = crSlave) before any FwdState::Start()")
+            "RESPONSE(startCollapsingOn(*e, true) T -> entry = e) and RESPONSE(entry -> collapsedRevalidation = crSlave) before any FwdState::Start()")
     pe = facts.fn(CRC + "processExpired")
     slave = m_enum_eq(E.m_is_mem(CRC + "collapsedRevalidation"), CRC + "crSlave")
     start = ev_call("FwdState::Start")
     ck.require_fact("J2.slave-does-not-fetch", ck.flow(pe), start, slave, False, "FwdState::Start()", why="(a request that joined a revalidation in progress would send a second one)")
-    ck.require_response("J2.joiner-is-slave", pe, E.m_calls(SC + "startCollapsingOn"), True,
-                        ev_assign(CRC + "collapsedRevalidation", E.M(lambda t: CRC + "crSlave" in E.mentions(t), "crSlave")), "collapsedRevalidation = crSlave", until=start)
+    need_locals(ck, pe, "entry")
+    ck.require_response("J2.joiner-is-slave", pe, E.m_calls(SC + "startCollapsingOn"), True, ev_assign("entry", E.M(lambda t: E.strip(t).get("k") == "ref", "the found entry")), "entry = e")
+    ck.require_response("J2.joiner-is-slave", pe, E.m_is_ref("entry"), True,
+                        ev_assign(CRC + "collapsedRevalidation", E.M(lambda t: CRC + "crSlave" in E.mentions(t), "crSlave")), "collapsedRevalidation = crSlave", until=start, term_kinds=("IfStmt",))
 
     # ------------------------------------------------------------------ S: what a collapsed reader is told
     ck.rule("S1 Store::Controller::syncCollapsed: setCollapsingRequirement(false)/invokeHandlers() only with inSync T; the reader keeps waiting (setCollapsingRequirement(true)) only with "
